@@ -749,6 +749,12 @@ func (e *Env) trCall(x *ECall) TV {
 	case "itoa":
 		need(1)
 		return TV{T: App("itoa", SString, argOf(0).T), Ty: strT}
+	case "atoi": // atoi(s): the value strconv.Atoi yields for the text s (whatever it is when the conversion fails)
+		need(1)
+		return TV{T: App("atoi_val", SInt, argOf(0).T), Ty: intT}
+	case "atoiOk": // atoiOk(s): strconv.Atoi accepts the text s
+		need(1)
+		return TV{T: Eq(App("atoi_err", SIface, argOf(0).T), Term{"nil_iface", SIface}), Ty: boolT}
 	case "has": // has(m, k): key k in map m (Go map) or set membership in an SMT set
 		need(2)
 		a := argOf(0)
